@@ -277,3 +277,69 @@ def neighbour_domain(comp: Competition, u: UpdateSite) -> Tuple[str, Optional[Te
             if len(args) == 1 or (len(args) == 2 and args[0] == ("const", 0)):
                 return ("adjprefix", q[1][1], args[-1])
     return ("unknown", dom)
+
+
+# ---------------------------------------------------------------------------
+# sibling signatures (R-SIB)
+# ---------------------------------------------------------------------------
+
+
+def rewrite(t, f):
+    """Bottom-up rewrite of a term; f(term) -> replacement or None."""
+    if not isinstance(t, tuple) or not t:
+        return t
+    if isinstance(t[0], str):
+        r = f(t)
+        if r is not None:
+            return r
+    return tuple(rewrite(x, f) for x in t)
+
+
+def loop_signature(comp: "Competition", lo: int = None, hi: int = None) -> List[tuple]:
+    """Canonical, site-independent rendering of the events of a competition loop (and of the
+    seeding events between `lo` and the loop when given)."""
+    w = comp.walker
+    lids: Dict[int, int] = {}
+
+    def lid_of(l):
+        if l not in lids:
+            lids[l] = len(lids)
+        return lids[l]
+
+    def f(t):
+        if t == comp.heap:
+            return ("free", "H")
+        if t[0] == "hremove" and t[1] == comp.heap:
+            return ("free", "p")
+        if t[0] == "iter":
+            return ("iter", rewrite(t[1], f), lid_of(t[2]))
+        if t[0] == "phi":
+            return ("phi", lid_of(t[1]), "_")
+        if t[0] == "old":
+            return ("old", rewrite(t[1], f))
+        if t[0] in ("new", "alloc"):
+            return (t[0], t[1], rewrite(t[2], f), rewrite(t[3], f))
+        return None
+
+    first = comp.loop.first_seq if lo is None else lo
+    last = comp.loop.last_seq if hi is None else hi
+    sig = []
+    base = len(comp.loop.guards)
+    for e in w.events:
+        if e.seq < first or e.seq > last:
+            continue
+        if e.kind == "bind":
+            continue
+        if e.kind == "call" and e.target is not None and show(e.target).startswith(("logger.", "range", "time.")):
+            continue
+        if e.kind == "call" and e.name in ("builtin.range", "builtin.int", "builtin.len"):
+            continue
+        guards = tuple((show(rewrite(g, f)), pol) for g, pol in e.guards[base:])
+        sig.append((
+            e.kind, e.name if e.kind == "call" else e.aug,
+            show(rewrite(e.target, f)) if e.target is not None else None,
+            show(rewrite(e.value, f)) if e.value is not None and e.kind != "call" else None,
+            tuple(show(rewrite(a, f)) for a in e.args),
+            guards, len(e.loops) - len(comp.loop.loops),
+        ))
+    return sig
